@@ -1073,7 +1073,14 @@ def observe_doe(case, cfg, normalize: bool, fpts) -> dict[str, Any]:
     funcs = [pb.objective, *pb.constraints]
     obs["n_funcs"] = len(funcs)
     obs["f_types"] = [str(getattr(getattr(f, "f_type", ""), "value", getattr(f, "f_type", ""))) for f in funcs]
+    # the database is indexed by function NAME: when a user constraint on a coupling has the name of IDF's consistency
+    # constraint of that coupling, the two functions are one database column; such a run is a probe (no verdict)
+    obs["probe"] = len({f.name for f in funcs}) < len(funcs)
     req: list[tuple[str, str, dict[str, list[float]], np.ndarray]] = []
+    obs["n_samples"] = 0
+    obs["evals"] = []
+    if names != expected_names(case, cfg["form"]):
+        return obs  # the oracle reports the design-space composition; no sample can be formed
     for p in fpts:
         for tag, point in eval_todo(cfg, p):
             point = {n: point[n] for n in names}
@@ -1535,7 +1542,7 @@ def model_lines_for_config(case, obs) -> list[tuple[str, Any]]:
     out: list[tuple[str, Any]] = []
     tag = {"MDF": "mdf", "IDF": "idf", "DisciplinaryOpt": "dopt"}[form]
     out.append((f"names {tag}", ("names", obs)))
-    if "error" in obs or "evals" not in obs:
+    if "error" in obs or "evals" not in obs or obs.get("probe"):
         return out
     names = obs["names"]
     funcs: list[tuple[str, str]] = [("f", case["objective"])]
@@ -1696,7 +1703,7 @@ def diff_model(lines, plan, n_def, answers, res: Result) -> list[dict[str, Any]]
                 continue
             b = BOUND if mda else (Fraction(0) if exact else EBOUND)
             m = cmp_vec(rec["vals"][k], pm[0], b) or cmp_mat(rec["jacs"][k], pm[1], b)
-            if m and b == 0 and line.startswith("eval idf 1 c"):
+            if m and b == 0 and line.startswith(("eval idf 1 c", "eval idfp 1 c")):
                 # normalisation by a scale that is not a power of two is rounded
                 m = cmp_vec(rec["vals"][k], pm[0], EBOUND) or cmp_mat(rec["jacs"][k], pm[1], EBOUND)
             if m:
@@ -1751,7 +1758,10 @@ def check_one(case, rng_mask: common.Rng | None, only: list[str] | None = None):
     if doe is not None and (only is None or "DOE" in only):
         obs = observe_doe(case, doe[0], doe[1], fpts)
         obs_by_key[obs["label"]] = obs
-        bad += oracle_doe(case, obs)
+        if obs.get("probe"):
+            obs["probe_mismatch"] = bool(oracle_doe(case, obs))
+        else:
+            bad += oracle_doe(case, obs)
     if rng_mask is not None:
         cfg = {"form": "IDF", "norm": False, "eq": False}
         if expected_names(case, "IDF") is not None:
@@ -1890,6 +1900,9 @@ def run_case(res: Result, case, rng_mask, pending: list | None, origin: str) -> 
         res.count("fixed-parameter")
     res.count(f"caller-input-array={case.get('xmode', 'fresh')}")
     for ck, obs in obs_by_key.items():
+        if obs.get("doe") and obs.get("probe"):
+            res.count("doe-probe-duplicate-function-names" + ("-mismatch" if obs.get("probe_mismatch") else ""))
+            continue
         if obs.get("doe"):
             res.count(f"doe-cfg={cfg_key(obs['cfg'])}")
             res.count(f"doe-normalize_design_space={int(obs.get('rounded', False))}")
@@ -2137,6 +2150,7 @@ def run(ctx) -> Result:
         "IDF compared exactly at dyadic points (power-of-two normalisation scales), up to 2^-40 otherwise",
         "self-coupled disciplines, BiLevel and differentiated_input_names_substitute are outside the generated scope",
         "parallel IDF: fixed (non-design) inputs are private to one discipline, so the merged defaults of the MDOParallelChain are the disciplines' own defaults",
+        "DOE stream: a run in which two functions of the problem have the same name (user constraint on a coupling = name of IDF's consistency constraint; the database is indexed by name) is a probe without verdict",
         "DOE stream: only the case points inside the bounds are sampled; with normalize_design_space=True values and gradients are compared up to 2^-40 (normalisation round trip)",
         "mask/unmask round trip is asserted only for masking names listed in the order of the reference names (the formulations only form such calls); other orders are probed against the model",
     ]
